@@ -9,7 +9,7 @@ LEVEL_TEXT = (
     "every division/remainder has a divisor that is the field, a non-zero constant, a power of two or zero-tested with an error"
     " return; every exponent of an integer power is bounded by the field's bit length; every public operation returns a canonical"
     " value (abstract interpretation over {canonical, boolean, field, positive, any}); the six comparison functions realise the"
-    " right truth function of the trichotomy (abstract evaluation over LT/EQ/GT) on the signed representatives."
+    " right truth function of the trichotomy (abstract evaluation over LT/EQ/GT) on the signed representatives; integer quotient and remainder on the canonical ones."
 )
 NOT_DECIDED = "equality with Circom's numeric semantics for all operands (e.g. the value of ~0, masks, shift wrap-around): numerical, not visible in shape."
 TRUSTED = ["syn parser", "num-bigint: mod_inverse returns None for a non-invertible element, modpow result is reduced", "operands are canonical field elements (C06.5 guards literals)"]
